@@ -7,6 +7,9 @@ import (
 	"context"
 	"errors"
 	"fmt"
+	"io"
+	"net"
+	"strings"
 	"time"
 
 	netty "github.com/go-netty/go-netty"
@@ -23,13 +26,31 @@ type obs struct {
 }
 
 // closeOnRead closes the channel from inside an inbound handler (read-loop goroutine).
-type closeOnRead struct{ hlib.Reader }
+type closeOnRead struct {
+	hlib.Reader
+	err error
+}
 
 var errBye = errors.New("bye")
 
+// closeArg: the error the closer passes to Close. Graceful close does not depend on it: closing with
+// an error that looks like a lost connection (as a handler forwarding a read failure or an upstream
+// failure does) must still deliver what was accepted over the healthy transport.
+func closeArg(closer string) error {
+	switch {
+	case strings.HasSuffix(closer, "(net-error)"):
+		return &net.OpError{Op: "read", Net: "upstream", Err: errors.New("connection reset by peer")}
+	case strings.HasSuffix(closer, "(wrapped-EOF)"):
+		return fmt.Errorf("peer went away: %w", io.EOF)
+	case strings.HasSuffix(closer, "(nil)"):
+		return nil
+	}
+	return errBye
+}
+
 func (c *closeOnRead) HandleRead(ctx netty.InboundContext, msg netty.Message) {
 	c.Reader.HandleRead(ctx, msg)
-	ctx.Close(errBye)
+	ctx.Close(c.err)
 }
 func (c *closeOnRead) HandleException(ctx netty.ExceptionContext, ex netty.Exception) {
 	// swallow: reads failing after the close must not change who closes
@@ -70,10 +91,10 @@ func scenarioFull(cfg hlib.ChanCfg, wrap hlib.Wrap, lay layout, closer string, b
 		Body: func(v any) {
 			o := v.(*obs)
 			var cancelParent func()
-			switch closer {
-			case "handler":
-				o.env = hlib.NewEnvWrap(cfg, wrap, nil, &closeOnRead{})
-			case "user-after-parent-cancel":
+			switch {
+			case strings.HasPrefix(closer, "handler"):
+				o.env = hlib.NewEnvWrap(cfg, wrap, nil, &closeOnRead{err: closeArg(closer)})
+			case closer == "user-after-parent-cancel":
 				// the channel's parent context (e.g. the bootstrap's) is cancelled first, as Shutdown does
 				var parent context.Context
 				parent, cancelParent = vcontext.WithCancel(context.Background())
@@ -110,13 +131,13 @@ func scenarioFull(cfg hlib.ChanCfg, wrap hlib.Wrap, lay layout, closer string, b
 				}
 			}
 			o.env.T.Mark("CLOSE-BEGIN")
-			if closer == "handler" {
+			if strings.HasPrefix(closer, "handler") {
 				o.env.T.Feed([]byte("x"))
 			} else {
 				if cancelParent != nil {
 					cancelParent()
 				}
-				o.env.Ch.Close(errBye)
+				o.env.Ch.Close(closeArg(closer))
 			}
 		},
 		Outcome: func(x *vsched.Exec, v any) string {
@@ -214,6 +235,14 @@ func build(tier string) []*explore.Scenario {
 					scs = append(scs, s)
 				}
 			}
+		}
+	}
+	// close reasons that look like a lost connection (or none at all) over a healthy transport
+	for _, cfg := range []hlib.ChanCfg{{Q: 2, Until: true}, {Q: 2, Until: false}} {
+		for _, closer := range []string{"user(net-error)", "user(wrapped-EOF)", "user(nil)", "handler(wrapped-EOF)", "handler(net-error)"} {
+			s := scenario(cfg, lays[1], closer, bound-1)
+			s.Cache = true
+			scs = append(scs, s)
 		}
 	}
 	// over the library's buffering wrappers
